@@ -516,3 +516,48 @@ def reach_origin_first(ai: int, before: bool, named: bool, second_too: bool) -> 
     post: _ != 0
     """
     return origin_first_check(ai, before, named, second_too)
+
+
+# ------------------------------------------------- (type, name) at most once in the file - judged on the ENCODED name
+
+SET_NAMES4 = [None, '', 'A', 'B']
+
+
+def set_names_once_check(ai, n1, n2, n3):
+    """Three objects of one type added through LogicalFile.add_* with set names from {None, '', 'A', 'B'} (round 6: an
+    empty name is written exactly like no name): among the sets the generator yields, no two of one type have the same
+    encoded set component, and none is empty."""
+    from vf.harness.common import lits
+    df, (lf,) = new_file(1)
+    add_origin(lf, 'O')
+    meth = [lf.add_zone, lf.add_axis, lf.add_comment, lf.add_parameter][ai]
+    for (k, ni) in enumerate((n1, n2, n3)):
+        meth('X%d' % k, set_name=SET_NAMES4[ni])
+    seen = []
+    for r in df.generator([[]]):
+        if not isinstance(getattr(r, 'set_type', None), str):
+            continue
+        if r.n_items == 0:
+            return 1
+        key = (r.set_type, tuple(lits(r._make_set_component_bytes())))
+        if key in seen:
+            return 2                       # two sets of one type carry the same (possibly absent) name in the file
+        seen.append(key)
+    return 0
+
+
+def ob_set_names_once(ai: int, n1: int, n2: int, n3: int) -> int:
+    """
+    pre: 0 <= ai <= 3 and 0 <= n1 <= 3 and 0 <= n2 <= 3 and 0 <= n3 <= 3
+    pre: (ai * 4 + n1) % SHARD_N == SHARD_I % 16
+    post: _ == 0
+    """
+    return set_names_once_check(ai, n1, n2, n3)
+
+
+def reach_set_names_once(ai: int, n1: int, n2: int, n3: int) -> int:
+    """
+    pre: 0 <= ai <= 3 and 0 <= n1 <= 3 and 0 <= n2 <= 3 and 0 <= n3 <= 3
+    post: _ != 0
+    """
+    return set_names_once_check(ai, n1, n2, n3)
